@@ -65,6 +65,13 @@ var addrClasses = []func(r *rand.Rand) net.IP{
 		ip[0] = 0x20
 		return ip
 	},
+	func(r *rand.Rand) net.IP { return net.IP{10, byte(r.Intn(256)), byte(r.Intn(256)), byte(1 + r.Intn(254))} }, // private (redacted when skipping private hops)
+	func(r *rand.Rand) net.IP {
+		ip := make(net.IP, 16)
+		r.Read(ip)
+		ip[0] = 0xfd
+		return ip
+	},
 }
 
 var rttValues = []float64{0, 5e-324, 1e-9, 0.1, 0.1, 0.3, 1.5, 20, 20, 33.333333333333336, 1e6, 1.7e300}
@@ -135,7 +142,7 @@ func ulpTol(n int, scale float64) float64 {
 }
 
 // checkDoc is the C16 oracle for one normalised document.
-func checkDoc(c *fw.Ctx, tag string, d *result.Results) {
+func checkDoc(c *fw.Ctx, tag string, d *result.Results, checkIDs bool) {
 	viol := func(sig, msg string) {
 		b, _ := json.Marshal(d)
 		c.Violate("C16", sig, tag+": "+msg, json.RawMessage(b))
@@ -202,25 +209,31 @@ func checkDoc(c *fw.Ctx, tag string, d *result.Results) {
 		c.Count("e2e_checked", 1)
 	}
 	// identifiers
-	ids := []string{d.TestRunID}
-	for i := range d.Traceroute.Runs {
-		ids = append(ids, d.Traceroute.Runs[i].RunID)
+	if !checkIDs {
+		goto jsonPart
 	}
-	idMu.Lock()
-	for _, id := range ids {
-		if id == "" {
-			idMu.Unlock()
-			viol("empty-id", "empty identifier")
-			idMu.Lock()
-		} else if idSeen[id] {
-			idMu.Unlock()
-			viol("duplicate-id", "identifier "+id+" repeated")
-			idMu.Lock()
+	{
+		ids := []string{d.TestRunID}
+		for i := range d.Traceroute.Runs {
+			ids = append(ids, d.Traceroute.Runs[i].RunID)
 		}
-		idSeen[id] = true
+		idMu.Lock()
+		for _, id := range ids {
+			if id == "" {
+				idMu.Unlock()
+				viol("empty-id", "empty identifier")
+				idMu.Lock()
+			} else if idSeen[id] {
+				idMu.Unlock()
+				viol("duplicate-id", "identifier "+id+" repeated")
+				idMu.Lock()
+			}
+			idSeen[id] = true
+		}
+		idMu.Unlock()
+		c.Count("ids_checked", len(ids))
 	}
-	idMu.Unlock()
-	c.Count("ids_checked", len(ids))
+jsonPart:
 	// JSON
 	b, err := json.Marshal(d)
 	if err != nil {
@@ -367,7 +380,12 @@ func cloneDoc(d *result.Results) *result.Results {
 func runC16Doc(c *fw.Ctx, tag string, d *result.Results, r *rand.Rand) {
 	orig := cloneDoc(d)
 	d.Normalize()
-	checkDoc(c, tag, d)
+	checkDoc(c, tag, d, true)
+	// the finished document of a request with private-hop skipping: still self-consistent
+	red := cloneDoc(d)
+	red.TestRunID = d.TestRunID
+	red.RemovePrivateHops()
+	checkDoc(c, tag+" (after RemovePrivateHops)", red, false)
 	pos := 0
 	maxH := 0
 	for _, v := range d.E2eProbe.RTTs {
